@@ -127,9 +127,11 @@ def snapshot(o):
     elif isinstance(o, BaseForm):
         s["arguments"] = safe(lambda: tuple(repr(a) for a in o.arguments()))
         s["coefficients"] = safe(lambda: tuple(repr(c) for c in o.coefficients()))
-        s["operands"] = safe(lambda: tuple(id(x) for x in o.ufl_operands))
+        # by value, not identity: FormSum((S, 1)) returns S and re-runs __init__ on it, which rebuilds equal
+        # component objects (same repr / hash / arguments / coefficients): not a change the property names
+        s["operands"] = safe(lambda: tuple(repr(x) for x in o.ufl_operands))
         if hasattr(o, "components"):
-            s["components"] = safe(lambda: tuple(id(x) for x in o.components()))
+            s["components"] = safe(lambda: tuple(repr(x) for x in o.components()))
             s["weights"] = safe(lambda: repr(list(o.weights())))
     elif isinstance(o, Expr):
         s["shape"] = safe(lambda: (o.ufl_shape, o.ufl_free_indices, o.ufl_index_dimensions))
